@@ -80,9 +80,9 @@ func genDecodeInput(r *Rand, fn string) Doc {
 	case 5:
 		v := okVals[fn]
 		s := v[r.Intn(len(v))]
-		return docOf([]byte(s[:r.Intn(len(s)+1)]), "truncated")
+		return docCut(r, []byte(s), []byte(s[:r.Intn(len(s)+1)]), "truncated")
 	}
-	return docOf(mutateDoc(r, []byte(okVals[fn][0])), "mutated")
+	return docMut(r, []byte(okVals[fn][0]), "mutated")
 }
 
 func (c12) Gen(r *Rand, sc *Scenario, tier string) {
